@@ -1,34 +1,75 @@
 ------------------------------ MODULE WireGrammar ------------------------------
 (***************************************************************************)
-(* Structure-aware input generation for C05.  Each wire format is a header *)
-(* plus a list of length-prefixed items (DHCP options, EDNS options, ND     *)
-(* options, LLDP TLVs) whose inner decoders assume a minimum size.  TLC     *)
-(* enumerates, per format, every (item kind, body length, fill pattern)    *)
-(* -- singly and in pairs -- over the boundary lengths of the typed        *)
-(* decoders, plus boundary values of the header's length/count fields.     *)
-(* The harness assembles CONSISTENT packets from each case (outer lengths  *)
-(* adjusted), which is what single-octet mutation cannot reach.            *)
+(* Structure-aware input space for C05.  Each wire format is a header plus *)
+(* a list of length-prefixed items (DHCP options, EDNS options, ND options, *)
+(* LLDP TLVs, DNS records) whose inner decoders assume a minimum size, and  *)
+(* DNS names whose compression pointers may point anywhere.  TLC enumerates *)
+(* the product of (position, kind, boundary length, fill pattern, whether   *)
+(* the declared length tells the truth) for every format; the harness       *)
+(* assembles a CONSISTENT packet around each case (outer lengths and counts *)
+(* adjusted unless the case says to lie), which is what octet-level         *)
+(* mutation and random strings do not reach.                                *)
 (*                                                                         *)
-(* Ingest model: Feed(h, b) has exactly two outcomes, "ok" and "err";       *)
-(* anything else (panic, abort, hang) violates C05; a valid request after  *)
-(* any sequence of feeds is still served.                                  *)
+(* The follower (IngestTrace.tla) checks that every case enumerated here    *)
+(* was fed to every handler it applies to (Cases \subseteq fed) and that    *)
+(* each feed ended in "ok" or "err".                                        *)
 (***************************************************************************)
 EXTENDS Integers, Sequences, FiniteSets, TLC, Json
 
-Outcomes == {"ok", "err"}
-C05Feed(outcome) == outcome \in Outcomes
-
 Fills == {"zero", "ff", "inc", "len"}
-Items == [fmt : {"dhcp"}, code : {1, 3, 6, 12, 15, 26, 33, 50, 51, 53, 54, 55, 57, 61, 81, 82, 119, 121, 255, 0},
-          len : {0, 1, 2, 3, 4, 5, 7, 8, 9, 254, 255}, fill : Fills]
-    \cup [fmt : {"edns"}, code : {3, 8, 10, 15, 65001}, len : {0, 1, 2, 3, 7, 8, 9, 15, 16, 24, 32, 33, 40, 300}, fill : Fills]
-    \cup [fmt : {"nd"}, code : {0, 1, 3, 5, 24, 25, 31, 37, 38, 200}, len : {0, 6, 14, 22, 30, 38, 46, 2038}, fill : Fills]
-    \cup [fmt : {"lldp"}, code : {0, 1, 2, 3, 4, 5, 6, 7, 8, 9, 127}, len : {0, 1, 2, 3, 4, 5, 6, 7, 9, 12, 33, 34, 255, 511}, fill : Fills]
-Headers == [fmt : {"dhcphdr"}, field : {"hlen", "op", "htype", "hops", "magic"}, val : {0, 1, 5, 6, 7, 15, 16, 17, 255}]
-    \cup [fmt : {"dnshdr"}, field : {"qdcount", "ancount", "nscount", "arcount", "flags"}, val : {0, 1, 2, 255, 65535}]
+\* does the declared length match the body? "exact"; "over" = declares more than is present (runs past
+\* the end of the enclosing unit); "under" = declares less (trailing octets inside the enclosing unit)
+Lies == {"exact", "over", "under"}
+
+DhcpCodes == {0, 1, 3, 6, 12, 15, 26, 33, 50, 51, 52, 53, 54, 55, 57, 61, 81, 82, 119, 121, 249, 255}
+DhcpLens == {0, 1, 2, 3, 4, 5, 6, 7, 8, 9, 16, 254, 255}
+EdnsCodes == {3, 8, 10, 15, 65001}
+EdnsLens == {0, 1, 2, 3, 7, 8, 9, 15, 16, 24, 32, 33, 40, 300}
+NdCodes == {0, 1, 3, 5, 24, 25, 31, 37, 38, 200}
+NdLens == {0, 6, 14, 22, 30, 38, 46, 2038}      \* body octets; the length field is (2 + body) / 8, 0 for body 0
+LldpCodes == {0, 1, 2, 3, 4, 5, 6, 7, 8, 9, 127}
+LldpLens == {0, 1, 2, 3, 4, 5, 6, 7, 9, 12, 33, 34, 255, 511}
+
+Items == [k : {"item"}, fmt : {"dhcp"}, code : DhcpCodes, len : DhcpLens, fill : Fills, lie : {"exact"}]
+    \cup [k : {"item"}, fmt : {"dhcp"}, code : DhcpCodes, len : {1, 4, 255}, fill : {"inc"}, lie : {"over"}]
+    \cup [k : {"item"}, fmt : {"edns"}, code : EdnsCodes, len : EdnsLens, fill : Fills, lie : {"exact"}]
+    \cup [k : {"item"}, fmt : {"edns"}, code : EdnsCodes, len : {1, 8, 16}, fill : {"inc"}, lie : {"over", "under"}]
+    \cup [k : {"item"}, fmt : {"nd"}, code : NdCodes, len : NdLens, fill : Fills, lie : {"exact"}]
+    \cup [k : {"item"}, fmt : {"nd"}, code : NdCodes, len : {6, 14, 30}, fill : {"inc"}, lie : {"over"}]
+    \cup [k : {"item"}, fmt : {"lldp"}, code : LldpCodes, len : LldpLens, fill : Fills, lie : {"exact"}]
+    \cup [k : {"item"}, fmt : {"lldp"}, code : LldpCodes, len : {1, 7, 34}, fill : {"inc"}, lie : {"over"}]
+
+\* two DHCP options in sequence: concatenation of split options (RFC 3396), overload (52) with the
+\* file/sname fields holding options or garbage, pad/end placement
+DhcpPairs == [k : {"pair"}, fmt : {"dhcp"}, c1 : {12, 52, 55, 61, 121, 0, 255}, l1 : {0, 1, 255}, c2 : {12, 52, 55, 61, 121, 0, 255}, l2 : {0, 1, 255},
+              over : {0, 1, 2, 3, 4}, area : {"zero", "opts", "noend", "ff"}]
+
+Headers == [k : {"hdr"}, fmt : {"dhcphdr"}, field : {"hlen", "op", "htype", "hops", "magic", "flags"}, val : {0, 1, 5, 6, 7, 15, 16, 17, 128, 255}]
+    \cup [k : {"hdr"}, fmt : {"dnshdr"}, field : {"qdcount", "ancount", "nscount", "arcount", "flags"}, val : {0, 1, 2, 255, 32768, 65535}]
+    \cup [k : {"hdr"}, fmt : {"ndhdr"}, field : {"type", "code", "hop", "flags"}, val : {0, 1, 133, 134, 135, 255}]
+
+\* DNS names: where the name sits and what is wrong with it
+NameShapes == {"self", "loop1", "loop2", "loop3", "fwd", "hdrptr", "oob", "chain1", "chain9", "chain10", "chain11", "chain12", "chain40",
+               "label63", "label64", "label128", "name255", "name256", "name1000", "runsout", "halfptr", "empty", "ptrtoroot", "ptrtoqtype"}
+NamePos == {"qname", "owner-an", "owner-ns", "owner-ar", "cname", "ns", "ptr", "mx", "soa-mname", "soa-rname", "afsdb", "rp-mbox", "rp-txt", "rt", "naptr"}
+Names == [k : {"name"}, fmt : {"dns"}, shape : NameShapes, pos : NamePos]
+
+\* DNS records: type x rdlength x honesty, in each section
+RTypes == {0, 1, 2, 5, 6, 12, 15, 16, 17, 18, 21, 28, 33, 35, 41, 43, 46, 47, 48, 50, 64, 65, 99, 250, 255, 65535}
+RdLens == {0, 1, 2, 3, 4, 5, 15, 16, 17, 19, 20, 21, 22, 255}
+Records == [k : {"rr"}, fmt : {"dns"}, rtype : RTypes, len : RdLens, fill : {"zero", "ff", "inc"}, lie : {"exact"}, sec : {"an", "ar"}]
+      \cup [k : {"rr"}, fmt : {"dns"}, rtype : RTypes, len : {0, 4, 20}, fill : {"inc"}, lie : {"over", "under"}, sec : {"an", "ns", "ar"}]
+
+\* LLDP management address TLV (the one with inner lengths): address string length x OID length x honesty
+Mgmt == [k : {"mgmt"}, fmt : {"lldp"}, alen : {0, 1, 2, 5, 17, 32, 33, 255}, olen : {0, 1, 128, 129, 255}, lie : Lies]
+
+\* two OPT records, OPT in the wrong section, OPT with a name, EDNS version / extended rcode boundary values
+Opt == [k : {"opt"}, fmt : {"dns"}, where : {"an", "ns", "ar", "twice"}, owner : {"root", "name", "ptr"}, version : {0, 1, 255}, ercode : {0, 1, 255}, size : {0, 511, 512, 65535}]
+
+Cases == Items \cup DhcpPairs \cup Headers \cup Names \cup Records \cup Mgmt \cup Opt
 
 VARIABLE c
-Init == c \in [k : {"item"}, a : Items] \cup [k : {"hdr"}, a : Headers]
+Init == c \in Cases
 Next == UNCHANGED c
 Spec == Init /\ [][Next]_c
 Emit == PrintT(<<"CASE", ToJson(c)>>)
